@@ -16,3 +16,7 @@ def run(run):
     sl = 400 if quick else 12
     run.gen_replay('Gen_Query', 'Gen_Query.cfg', A, {}, env={'VERIF_N': 3, 'VERIF_SLICES': sl, 'VERIF_SLICE': run.seed % sl, 'VERIF_DEFVARY': 0},
                    timeout=3000, name='seeded 1/%d slice of all 3-node cases' % sl)
+    # larger graphs: the Gen_AprioriBig families (defense sources) with the labels of the analysis, an attacker that has reached
+    # the sources and the first third of the steps, then four more; IncrBig (incremental = recomputed) checked by TLC per member
+    run.gen_replay('Gen_QueryBig', 'Gen_QueryBig.cfg', A, {}, env={'VERIF_L1': 12, 'VERIF_L2': 120 if quick else 240, 'VERIF_L3': 0},
+                   timeout=900, workers=16, name='graph families of 12 / %d nodes, reached prefix then four more steps' % (120 if quick else 240))
